@@ -1,4 +1,6 @@
 """Registry: property id -> what decides it (Lean modules/theorems, correspondence streams, extras)."""
+import importlib, pkgutil
+
 PROPS = {}
 
 
@@ -7,3 +9,8 @@ def register(pid, **spec):
 
 
 from . import table  # noqa: E402,F401  (fills PROPS)
+
+# every other module of this package registers one property (cxx.py)
+for _m in sorted(m.name for m in pkgutil.iter_modules(__path__)):
+    if _m != "table":
+        importlib.import_module(__name__ + "." + _m)
